@@ -491,9 +491,14 @@ func checkC06(c c06Case) *ev.Failure {
 			mustChange[n] = true
 		}
 		mustChange[c.Mutation.Module] = true
+		mayChange := map[string]bool{}
+		for n := range mustChange {
+			mayChange[n] = true
+		}
 		if sameIdentityExchange(c, base) {
 			// a reference was exchanged for one to a module with the SAME identifier (an identical twin): the
-			// computation cannot change, so no identifier is required to change (and none may change elsewhere)
+			// computation cannot change, so no identifier is required to change; the module and its descendants may
+			// still change (the twin sits elsewhere in the ancestor list), nothing else may
 			for n := range mustChange {
 				delete(mustChange, n)
 			}
@@ -509,7 +514,7 @@ func checkC06(c c06Case) *ev.Failure {
 			if mustChange[n] && after == h {
 				unchanged = append(unchanged, n)
 			}
-			if !mustChange[n] && after != h {
+			if !mayChange[n] && after != h {
 				spurious = append(spurious, n)
 			}
 		}
